@@ -1949,6 +1949,15 @@ fn run_observations(out: &mut Out) {
         };
         let _ = t0;
         out.count(&format!("O.observation: set_bucket_count({}) then one sample and a render: {}", name, outcome));
+        // "all bucket counts" is in the property's quantifier: every count the builder accepts must give a summary that
+        // renders its one sample (repaired defect: `Vec::with_capacity(count)` aborted the process for the largest counts)
+        if outcome.starts_with("PROCESS DIED") {
+            out.case(&format!("bucket-count probe {}", name));
+            out.oracle_fail(
+                "a summary configured with a bucket count the builder accepts kills the process at its first drain",
+                &format!("PrometheusBuilder::new().set_bucket_count({}).build_recorder(); one histogram sample; render() :: {}", name, outcome),
+            );
+        }
     }
 }
 
